@@ -254,8 +254,24 @@ def rnd_top(rng):
     return alts + [rng.choice([0, 1, 1, 2]), rng.choice([None, 1, 2])]
 
 
+def impl_shared(rname, content, attrs, w, shared):
+    """Collecting mode on an error list that already holds the entries of other parents (what
+    validate.tree does with its one list): returns the codes this validation APPENDED."""
+    from metapype.eml import rule as R
+    from metapype.model.node import Node
+    n = RL.build_node(PARENT, content, attrs, w)
+    n0 = len(shared)
+    try:
+        R.Rule(rname).validate_rule(n, shared)
+        out = [RL.entry_code(e) for e in shared[n0:]]
+    except Exception as e:  # noqa
+        out = [RL.entry_code(x) for x in shared[n0:]] + ["CRASH:" + type(e).__name__]
+    Node.store.clear()
+    return out
+
+
 # ------------------------------------------------------------------ statement on one observation
-def judge(ctx, rname, sp, mixed, w, ff, codes, key_prefix="C01"):
+def judge(ctx, rname, sp, mixed, w, ff, codes, key_prefix="C01", shared_codes=None, shared_before=None):
     """Compare one observation of the implementation with the statement. Returns
     ('in'|'out'|'band', accepted)."""
     names = spec_names(sp)
@@ -280,32 +296,69 @@ def judge(ctx, rname, sp, mixed, w, ff, codes, key_prefix="C01"):
         ctx.fail(f"{key_prefix}:{rname}:{word}", f"a sequence of the rule's language is rejected ({ff})", rep)
     elif (not in_len) and accepted_ff:
         ctx.fail(f"{key_prefix}:{rname}:{word}", "a sequence outside the rule's language is accepted", rep)
+    elif shared_codes is not None:
+        # collecting mode with a list that already holds entries of OTHER parents (validate.tree's situation):
+        # this parent is accepted iff its validation appends nothing
+        rep = dict(rep)
+        rep["shared_list"] = {"appended_codes": shared_codes,
+                              "list_before": "entries left by validating the same rule on other parents named 'p'",
+                              "entries_before": shared_before}
+        if any(c.startswith("CRASH") for c in shared_codes):
+            ctx.fail(f"{key_prefix}:{rname}:{word}", f"collecting into a non-empty list raised: {shared_codes}", rep)
+        elif in_l and shared_codes != []:
+            ctx.fail(f"{key_prefix}:{rname}:{word}", "collecting into a list that already holds other parents' entries reports "
+                     f"{shared_codes} for a sequence of the rule's language", rep)
+        elif (not in_len) and shared_codes == []:
+            ctx.fail(f"{key_prefix}:{rname}:{word}", "collecting into a list that already holds other parents' entries reports "
+                     "nothing for a sequence outside the rule's language", rep)
+        elif shared_codes != codes:
+            ctx.fail(f"corr:shared-list:{rname}", "collecting mode appends different entries depending on what the list already "
+                     "holds (the model is a function of the node alone)",
+                     {"kind": "broken-correspondence", "rule": rname, "word": w, "fresh_list_codes": codes,
+                      "appended_to_used_list": shared_codes}, concrete=False)
     band = in_len and not in_l
     return ("band" if band else ("in" if in_l else "out")), accepted_ff
 
 
-COQ_S_HEADER = ("From MP Require Import Common.Base Gen.Tables Model.Rule Spec.GreedyOk Spec.LangDec Proofs.C01_Table.\n"
-                "Definition dec (rn : pystr) (alpha : list pystr) (ws : list (list nat)) : list bool :=\n"
-                "  match top_of rn with\n"
-                "  | Some top => map (fun w => forallb (fun c => smem c (names_of_top top)) (map (fun i => nth i alpha []) w)\n"
-                "                             && inLtop (is_mixed rn) top (map (fun i => nth i alpha []) w)) ws\n"
+# (imports nothing that depends on Gen/Tables.v except the tables themselves, so the deciders still
+# evaluate when the table obligation of Proofs/C01_Table.v no longer holds)
+COQ_S_HEADER = ("From MP Require Import Common.Base Gen.Tables Model.Rule Spec.LangDec.\n"
+                "Definition top_of' (rn : pystr) : option (option spec) :=\n"
+                "  match assoc rn rules with Some r => parse_children (rr_children r) | None => None end.\n"
+                "(* 2 = in L, 1 = in Llen but not in L (unspecified band), 0 = outside Llen *)\n"
+                "Definition cls (rn : pystr) (alpha : list pystr) (ws : list (list nat)) : list nat :=\n"
+                "  match top_of' rn with\n"
+                "  | Some top => map (fun w => let v := map (fun i => nth i alpha []) w in\n"
+                "                             if forallb (fun c => smem c (names_of_top top)) v then\n"
+                "                               if inLtop (smem rn mixed_rules) top v then 2\n"
+                "                               else if inLlentop (smem rn mixed_rules) top v then 1 else 0\n"
+                "                             else 0) ws\n"
                 "  | None => []\n"
                 "  end.\n"
-                "Definition beqb (a b : bool) := Bool.eqb a b.\n")
+                "Fixpoint bad_acc (i : nat) (c : list nat) (acc : list bool) : list nat :=\n"
+                "  match c, acc with\n"
+                "  | [], [] => []\n"
+                "  | k :: c', a :: acc' => (if Nat.eqb k 1 then [] else if Bool.eqb a (Nat.eqb k 2) then [] else [i]) ++ bad_acc (S i) c' acc'\n"
+                "  | _, _ => [i]\n"
+                "  end.\n")
+DEC_SHARD = 2500
 
 
-def coq_decide_jobs(ctx, per_rule, shard=2500):
-    """per_rule: list of (rname, alpha, [(word_indices, expected_bool)]). One Eval per rule;
-    rules are packed into files of about `shard` words."""
+def coq_decide_jobs(ctx, per_rule, shard=DEC_SHARD):
+    """per_rule: list of (rname, alpha, [(word_indices, accepted, python_class)]). Two Evals per
+    rule part (class disagreements with the Python oracle; acceptance disagreements outside the
+    band); rule parts are packed into files of about `shard` words."""
     jobs, layout = [], []
     cur, cur_rules, n = [], [], 0
     for rname, alpha, items in per_rule:
         for i in range(0, max(1, len(items)), shard):
             part = items[i:i + shard]
-            cur.append("Eval vm_compute in mismatches beqb (dec %s %s %s) %s.\n" % (
-                cstr(rname), clist(cstr(a) for a in alpha),
-                clist(clist(str(k) + "%nat" for k in w) for w, _ in part),
-                clist(cbool(b) for _, b in part)))
+            tag = f"r{len(cur_rules)}"
+            cur.append("Definition %s := Eval vm_compute in cls %s %s %s.\n" % (
+                tag, cstr(rname), clist(cstr(a) for a in alpha),
+                clist(clist(str(k) + "%nat" for k in w) for w, _, _ in part)))
+            cur.append("Eval vm_compute in mismatches Nat.eqb %s %s.\n" % (tag, clist(str(c) + "%nat" for _, _, c in part)))
+            cur.append("Eval vm_compute in bad_acc 0 %s %s.\n" % (tag, clist(cbool(b) for _, b, _ in part)))
             cur_rules.append((rname, i))
             n += len(part)
             if n >= shard:
@@ -323,7 +376,7 @@ def run(ctx):
     thorough = ctx.tier == "thorough"
     timing = ctx.extra.setdefault("timing_s", {})
     t0 = time.time()
-    built = ctx.build(extra_targets=["theories/Model/RuleRun.v"])
+    built = ctx.build(extra_targets=["theories/Model/RuleRun.v", "theories/Spec/LangDec.v"])
     timing["build"] = round(time.time() - t0, 1)
     t0 = time.time()
     rules = RL.live_rules()
@@ -363,6 +416,9 @@ def run(ctx):
         if not py_greedy_ok(sp):
             ctx.note(f"{rname}: children section outside the greedy_ok shape (the table obligation will say so)")
         observed = {}
+        shared = []          # one collecting list reused for every parent validated against this rule
+        summary = set()      # (code, child name) of its entries
+        history = []         # the words whose validation appended to it
 
         def observe(w):
             t = tuple(w)
@@ -370,9 +426,18 @@ def run(ctx):
                 observed[t] = RL.impl_named_rule(rname, PARENT, content, attrs, w)
             return observed[t]
 
-        # (S) statement search
+        # (B-i) correspondence words
+        c_words, _ = capped_words(rng, alpha, corr_len, corr_cap)
+        if sp is not None:
+            for _ in range(6):
+                w = sample_lang(rng, sp)
+                c_words.append(w)
+                c_words += mutants(rng, w, names)
+
+        # (S) statement search (judges the correspondence words, too)
         s_words, ex = capped_words(rng, alpha, s_len, s_cap)
         exhaustive_s = exhaustive_s and ex
+        s_words += c_words
         if sp is not None:
             for _ in range(8):
                 w = sample_lang(rng, sp, slack=3)
@@ -392,25 +457,36 @@ def run(ctx):
                 ctx.fail(f"harness:canonical:{rname}", "canonical content/attributes of the harness are not valid for this rule",
                          {"kind": "harness", "rule": rname, "content": content, "attrs": attrs, "codes": codes}, concrete=False)
                 break
-            cls, acc = judge(ctx, rname, sp, mixed, w, ff, codes)
+            before = sorted(summary, key=str)[:12]
+            n0 = len(shared)
+            sc = impl_shared(rname, content, attrs, w, shared)
+            for e in shared[n0:]:
+                summary.add((RL.entry_code(e), e[3] if len(e) > 3 and isinstance(e[3], str) else None))
+            nviol = len(ctx.violations)
+            cls, acc = judge(ctx, rname, sp, mixed, w, ff, codes, shared_codes=sc, shared_before=before)
+            if len(ctx.violations) > nviol and "shared_list" in ctx.violations[-1]["replay"]:
+                # make the replay self-contained: one earlier parent whose entries are enough, else all of them
+                prior = None
+                for w0 in history:
+                    l0 = []
+                    impl_shared(rname, content, attrs, w0, l0)
+                    if l0 and impl_shared(rname, content, attrs, w, l0) == sc:
+                        prior = [w0]
+                        break
+                ctx.violations[-1]["replay"]["shared_list"]["prior_words"] = prior if prior is not None else history[-300:]
+            if len(shared) > n0:
+                history.append(w)
+            ctx.count("S:shared-list:" + ("fresh" if not before else "used"))
             ctx.case((rname, t), nontrivial=len(w) > 0)
             ctx.count("S:" + cls + (":accepted" if acc else ":rejected"))
             ctx.count("S:len=%d" % min(len(w), 6))
             if cls == "band":
                 n_band += 1
-            else:
-                dec_items.append(([idx[x] for x in w], acc))
+            dec_items.append(([idx[x] for x in w], acc, {"in": 2, "band": 1, "out": 0}[cls]))
             if not acc:
                 ctx.count("S:ff=" + ff)
         per_rule_dec.append((rname, alpha, dec_items))
 
-        # (B-i) correspondence words
-        c_words, _ = capped_words(rng, alpha, corr_len, corr_cap)
-        if sp is not None:
-            for _ in range(6):
-                w = sample_lang(rng, sp)
-                c_words.append(w)
-                c_words += mutants(rng, w, names)
         seen = set()
         for w in c_words:
             t = tuple(w)
@@ -440,27 +516,33 @@ def run(ctx):
                      {"kind": "broken-correspondence", "file": jobs[k][0], "output": out[-1500:]}, concrete=False)
             continue
         vals = common.parse_eval_values(out)
-        if len(vals) != len(layout[k]):
-            ctx.fail("S:coq-parse", f"decider file {jobs[k][0]}: {len(vals)} values for {len(layout[k])} evaluations",
+        if len(vals) != 2 * len(layout[k]):
+            ctx.fail("S:coq-parse", f"decider file {jobs[k][0]}: {len(vals)} values for {len(layout[k])} rule parts",
                      {"kind": "broken-correspondence", "file": jobs[k][0], "output": out[-800:]}, concrete=False)
             continue
-        for (rname, off), v in zip(layout[k], vals):
+        for q, (rname, off) in enumerate(layout[k]):
             alpha, items = by_rule[rname]
-            part = items[off:off + 2500]
+            part = items[off:off + DEC_SHARD]
             n_dec += len(part)
-            for j in common.parse_nat_list(v):
+            for j in common.parse_nat_list(vals[2 * q]):
+                w = [alpha[i] for i in part[j][0]] if j < len(part) else None
+                ctx.fail(f"oracle:{rname}", "the brute-force membership test of the harness and the verified deciders inL/inLlen "
+                         "classify a word differently (one of the two oracles is wrong)",
+                         {"kind": "oracle-disagreement", "rule": rname, "word": w,
+                          "python_class(2=in L,1=band,0=out)": part[j][2] if j < len(part) else None}, concrete=False)
+            for j in common.parse_nat_list(vals[2 * q + 1]):
                 if j >= len(part):
                     ctx.fail("S:coq-length", "decider returned a list of the wrong length", {"rule": rname}, concrete=False)
                     continue
-                wi, acc = part[j]
+                wi, acc, _ = part[j]
                 w = [alpha[i] for i in wi]
                 ff, codes = RL.impl_named_rule(rname, PARENT, RL.canonical_content(rules[rname]), required_attrs(rules[rname]), w)
                 ctx.fail(f"C01:{rname}:{' '.join(w)}",
                          f"implementation {'accepts' if acc else 'rejects'} a sequence that the verified decider inL puts "
                          f"{'outside' if acc else 'inside'} the rule's language",
-                         {"kind": "impl-vs-statement", "oracle": "inL (Spec/LangDec.v, inL_correct)", "rule": rname, "word": w,
-                          "parent": PARENT, "observed": {"fail_fast": ff, "collecting_codes": codes},
-                          "expected": {"in_L": not acc}})
+                         {"kind": "impl-vs-statement", "oracle": "inL / inLlen (Spec/LangDec.v, inL_correct, inLlen_correct)",
+                          "rule": rname, "word": w, "parent": PARENT,
+                          "observed": {"fail_fast": ff, "collecting_codes": codes}, "expected": {"in_L": not acc}})
     ctx.extra["decided_in_coq_by_inL"] = n_dec
 
     timing["coq_inL"] = round(time.time() - t0, 1)
@@ -556,4 +638,13 @@ def replay(ctx, data):
     print(f"rule={rname} word={w} fail_fast={ff} collecting={codes} "
           f"in_L={member(sp, w, rname in MIXED_RULES, True)} in_Llen={member(sp, w, rname in MIXED_RULES, False)}")
     ctx.case((rname, tuple(w)))
-    judge(ctx, rname, sp, rname in MIXED_RULES, w, ff, codes)
+    sc = before = None
+    prior = rep.get("shared_list", {}).get("prior_words")
+    if prior is not None:
+        shared = []
+        for w0 in prior:
+            impl_shared(rname, RL.canonical_content(rj), required_attrs(rj), w0, shared)
+        before = sorted(set((RL.entry_code(e), e[3] if len(e) > 3 and isinstance(e[3], str) else None) for e in shared), key=str)
+        sc = impl_shared(rname, RL.canonical_content(rj), required_attrs(rj), w, shared)
+        print(f"after validating {prior} into one list, validating {w} appended {sc}")
+    judge(ctx, rname, sp, rname in MIXED_RULES, w, ff, codes, shared_codes=sc, shared_before=before)
